@@ -48,7 +48,7 @@ class C37(Prop):
         "recurring derived names, a fresh name, a name in use in the current environment's listing, or the name active here) = the same "
         "update_profile call with the name changed (refused by the (name, api_url) key when taken there); restart = new ConfigManager "
         "over the same directory. Every other profile operation uses EnvService.current_auth_service() as the CLI commands do. Sequences come "
-        "from six families (free; environment-op + profile-ops blocks; populate several environments with shared keys then churn; "
+        "from eight families (free; environment-op + profile-ops blocks; mostly environment operations; several environments then two or three deletions in a row; populate several environments with shared keys then churn; "
         "default-env profile + added env + delete it while current; device-login, leave, return, re-login; environments populated with "
         "different subsets of the keys, return to one, pick, then update/rename profiles of the other environments among the names in use). Oracle (reference model: "
         "known environments = seeded default + added - deleted, current environment, ids of profiles picked = created, selected or "
@@ -71,7 +71,7 @@ class C37(Prop):
         "no repository caller renames a profile through update_profile (auth_service.py / commands/auth.py only change tokens, api keys and device_oidc); name-changing updates are generated only for profiles of non-current environments, where the statement is unambiguous (another environment's profile operations must not change which profile is active in the current one); name-preserving updates are generated for profiles of any environment",
         "'picked while that environment was current' is read as 'since that environment last became current' - the reading under which the repository's own clear-on-switch mechanism is the thing being checked; under the weaker reading 'at any earlier time' the separate violation kind active_profile_never_picked_in_env applies",
     ]
-    budgets = {"quick": 1500, "thorough": 1500}
+    budgets = {"quick": 1700, "thorough": 1700}
     wall = {"quick": 55.0, "thorough": 420.0}
 
     # ------------------------------------------------------------------ setup
@@ -186,7 +186,16 @@ class C37(Prop):
             st.lists(st.one_of(rename_in_use, rename_in_use, rename_in_use, rename, update, select), min_size=2, max_size=6),
             churn,
         ).map(lambda t: (t[0] + [t[1]] + t[2] + t[3] + t[4])[:30])
-        return st.one_of(free, blocks, populated, populated, fallback, relogin, renaming, renaming, renaming).map(lambda ops: [list(o) for o in ops])
+        # environment-heavy sequences: mostly add/switch/delete of environments (the order of deletions matters), few profiles
+        envheavy = st.lists(st.one_of(env_op, env_op, env_op, env_op, token, select), min_size=3, max_size=12)
+        # teardown sequences: several environments set up (with or without profiles), some switching, then two or three deletions
+        # in a row (non-current and current ones in either order), then churn
+        sw = st.tuples(st.just("switch"), url4, i3)
+        dele = st.tuples(st.just("del_env"), urld)
+        teardown = st.tuples(st.one_of(populate, populate_uneven), st.lists(st.one_of(sw, sw, select), min_size=0, max_size=2), st.lists(dele, min_size=2, max_size=3), churn).map(
+            lambda t: (t[0] + t[1] + t[2] + t[3])[:30]
+        )
+        return st.one_of(free, blocks, envheavy, teardown, populated, populated, fallback, relogin, renaming, renaming, renaming).map(lambda ops: [list(o) for o in ops])
 
     # ------------------------------------------------------------------ one case
 
